@@ -106,7 +106,13 @@ def replay_case(arg):
             ctrl = chi.ProblemModellingController(base_model(), ems)
             if mode != 'indiv':
                 ctrl.set_population_model(population_model(mode))
-            ctrl.set_data(frame, output_observable_dict={OUTPUTS[0]: 'Obs A', OUTPUTS[1]: 'Obs B'},
+            # the output-observable mapping is a FUNCTION (Controller!Mapping): the order in which its entries are written is
+            # immaterial -- every other case writes it in the reverse of the model's output order
+            mapping = {OUTPUTS[0]: 'Obs A', OUTPUTS[1]: 'Obs B'}
+            if (int(key, 16) // 5) % 2:
+                mapping = dict(reversed(list(mapping.items())))
+                cnt['mapping_written_in_reverse_order'] = 1
+            ctrl.set_data(frame, output_observable_dict=mapping,
                           covariate_dict=({'W': 'Weight'} if mode == 'popcov' else None))
             scribble(ctrl, ('get_parameter_names', 'get_covariate_names', 'get_dosing_regimens'))
             n = ctrl.get_n_parameters()
